@@ -2,6 +2,7 @@
   C06 — Every invocation terminates with a decision for every wanted step.
 -/
 import N2V.Lemmas.SchedExamples
+import N2V.Lemmas.SchedTerm
 import N2V.Lemmas.SchedCycle
 import N2V.Model.Run
 namespace N2V.C06
@@ -125,5 +126,17 @@ example : DepsOK Ex.g0 ∧ Acyclic Ex.g0 := by
 theorem cycle_diagnostic_sound (g : Graph) (s s' : S) (f : Nat) (m : String) (h : want g s f = .err m s') :
     ∃ (c : List Nat) (x : Nat), m = cycleMessage g c x ∧ c.head? = some x ∧ Linked g (c ++ [x]) :=
   want_cycle_sound g s s' f m h
+
+/-- **`Work::run` terminates**: in both phases of `run::build` the loops end for a reason of their
+    own — success, failure, interruption, an error, or the environment supplying no further
+    completion — never because the model's fuel ran out (`6·(#builds+1)+2` rounds of the outer loop,
+    `#builds+1` of the start and ready loops).  Every round of the outer loop that continues moves
+    a build forward in Unknown < Want < Ready < Queued < Running < Done < Failed (`gain`, bounded by
+    6 per build: `gain_eq`); every start takes a build out of the Queued stock and every round of
+    the ready loop one out of the Want/Ready stock.  (The want phase's own recursion bound,
+    `wantFuel`, is not covered by this theorem.) -/
+theorem run_loops_terminate {E : Type} {g : Graph} (gok : GraphOK g) (a : Run.Args) (c : Choices E) (e : E) :
+    (Run.build g a c e).2.2 ≠ .fuel ∧ ∀ n0, (Run.buildReloaded g a c e n0).2.2 ≠ .fuel :=
+  ⟨Run.build_no_fuel gok a c e, fun n0 => Run.buildReloaded_no_fuel gok a c e n0⟩
 
 end N2V.C06
